@@ -130,26 +130,35 @@ def cell_volume(mins, maxs, shape, nob):
     return vol
 
 
-def _wkey_from_kind(wkind, warg, exponent, node, impl='numpy'):
+def _wkey_from_kind(wkind, warg, exponent, node, owner, impl='numpy'):
+    """(strict, loose) identity of the weighting a space constructor creates.
+
+    ``owner`` is 'T' (tensor space) or 'P' (product space): the concrete weighting class.  The
+    docstrings say e.g. "True if other is a ConstWeighting instance with the same constant";
+    whether instances of *different subclasses* with the same data are meant to be equal is
+    left open, so the concrete class is part of the strict key only.
+    """
     p = float(exponent)
-    if wkind is None:
-        return ('const', impl, p, 1.0)
-    if wkind == 'const':
-        return ('const', impl, p, float(warg))
-    if wkind == 'arr':
-        return ('array', impl, p, warg)
-    if wkind == 'list':
-        # array-like converted to a *new* array at every construction: identical to nothing else
-        return ('array', impl, p, ('fresh', node))
-    if wkind == 'inner':
-        return ('inner', impl, 2.0, warg)
-    if wkind == 'norm':
-        return ('norm', impl, 1.0, warg)
-    if wkind == 'dist':
-        return ('dist', impl, 1.0, warg)
     if wkind == 'W':
-        return keys(warg, node)[0]
-    raise KeyError(wkind)
+        return keys(warg, node)
+    if wkind is None:
+        k = ('const', impl, p, 1.0)
+    elif wkind == 'const':
+        k = ('const', impl, p, float(warg))
+    elif wkind == 'arr':
+        k = ('array', impl, p, warg)
+    elif wkind == 'list':
+        # array-like converted to a *new* array at every construction: identical to nothing else
+        k = ('array', impl, p, ('fresh', node))
+    elif wkind == 'inner':
+        k = ('inner', impl, 2.0, warg)
+    elif wkind == 'norm':
+        k = ('norm', impl, 1.0, warg)
+    elif wkind == 'dist':
+        k = ('dist', impl, 1.0, warg)
+    else:
+        raise KeyError(wkind)
+    return k + (owner,), k
 
 
 _WCLS = {
@@ -216,12 +225,13 @@ def keys(recipe, node=None):
             k = ('inner', impl, 2.0, arg)
         else:
             k = (kind, impl, 1.0, arg)
-        return k, k
+        # concrete class: T(ensor space), P(roduct space), B(ase class)
+        return k + (recipe[1][-1] if recipe[1][-1] in 'TP' else 'B',), k
     if tag == 'TS':
         _, shape, dtype, wkind, warg, exponent = recipe
-        k = ('TS', _ituple(shape) if shape != () else (), np.dtype(dtype).str,
-             _wkey_from_kind(wkind, warg, exponent, node))
-        return k, k
+        ws, wl = _wkey_from_kind(wkind, warg, exponent, node, 'T')
+        sh = _ituple(shape) if shape != () else ()
+        return (('TS', sh, np.dtype(dtype).str, ws), ('TS', sh, np.dtype(dtype).str, wl))
     if tag == 'UD':
         _, mins, maxs, shape, opts = recipe
         o = dict(opts)
@@ -236,14 +246,15 @@ def keys(recipe, node=None):
         else:
             # "None: Use the cell volume as weighting constant (default)"
             wk = ('const', 'numpy', p, cell_volume(mins, maxs, shape, nob))
-        tk = ('TS', _ituple(shape), np.dtype(dtype).str, wk)
+        tk = ('TS', _ituple(shape), np.dtype(dtype).str, wk + ('T',))
+        tl = ('TS', _ituple(shape), np.dtype(dtype).str, wk)
         # DiscretizedSpace.__eq__: "True if other is a DiscretizedSpace with equal tspace";
         # the code also compares the partition -> partition only in the strict key
-        return ('DS', pk, tk), ('DS', tk)
+        return ('DS', pk, tk), ('DS', tl)
     if tag == 'DS':
         pk = keys(recipe[1], node)[0]
-        tk = keys(recipe[2], node)[0]
-        return ('DS', pk, tk), ('DS', tk)
+        tk, tl = keys(recipe[2], node)
+        return ('DS', pk, tk), ('DS', tl)
     if tag in ('PS', 'PW'):
         if tag == 'PW':
             _, base, n, wkind, warg, exponent = recipe
@@ -251,7 +262,7 @@ def keys(recipe, node=None):
         else:
             _, facs, wkind, warg, exponent, _field = recipe
         ks = [keys(r, node) for r in facs]
-        wk = _wkey_from_kind(wkind, warg, exponent, node)
+        wk = _wkey_from_kind(wkind, warg, exponent, node, 'P')[0]
         # ProductSpace.__eq__: "is a ProductSpace instance, has the same length and the same
         # factors"; the code also compares the weighting -> weighting only in the strict key
         return (('PS', tuple(k[0] for k in ks), wk), ('PS', tuple(k[1] for k in ks)))
@@ -310,6 +321,7 @@ def _geom(thorough):
             ('UPart', 0, 2, 2, False), ('UPart', -0.0, 1, 2, False),
             ('Part', ('IP', 0, 1), ('Grid', (0.25, 0.75))),
             ('Part', ('IP', -0.0, 1), ('Grid', (0.25, 0.75))),
+            ('Part', ('IP', 0, 2), ('Grid', (0.25, 0.75))),      # same grid, other set
             ('Part', ('IP', 0, 1), ('Grid', (0, 1))),
             ('Part', ('IP', -1, 1), ('Grid', (-0.5, 0, 0.5))),
             ('Part', ('IP', -1, 1), ('Grid', (-0.5, -0.0, 0.5))),
@@ -324,7 +336,7 @@ def _geom(thorough):
                 ('Grid', (0, 1, 3)), ('UGrid', (0, 0), (1, 1), (2, 2)), ('Grid', (-0.0,)),
                 ('Grid', (0, 1), (0,)), ('Grid', (0,), (0, 1)),
                 ('UPart', 0, 1, 1, False), ('UPart', 0, 1.5, 3, False),
-                ('UPart', 0, 1, 2, (False, True)), ('UPart', -1, 1, 4, False),
+                ('UPart', 0, 3, 2, ((False, True),)), ('UPart', -1, 1, 4, False),
                 ('UPart', (0, 0), (1, 1), (2, 2), True), ('UPart', (0, 0), (1, 1), (2, 4), False),
                 ('UPart', (0, -0.0), (1, 1), (2, 2), False),
                 ('Part', ('IP', (0, 0), (1, 1)), ('Grid', (0.25, 0.75), (0.25, 0.75))),
@@ -390,6 +402,17 @@ def _tensor_spaces(thorough):
                 ts(3, wkind='arr', warg='A3c'), ts(3, wkind='const', warg=2.0),
                 ts((2, 3), wkind='arr', warg='A23'), ts((2, 3), wkind='const', warg=2.0),
                 ts(2, wkind='const', warg=2.0, exponent=INF), ts(2, 'float32', exponent=1.0)]
+        # full product shape x dtype x weighting x exponent
+        arr_of = {(2,): 'A2', (3,): 'A3', (2, 2): 'A22'}
+        for shape in [2, 3, (2, 2)]:
+            for dtype in ['float64', 'float32', 'complex128']:
+                for wkind, warg in [(None, None), ('const', 2.0), ('arr', None)]:
+                    for p in [2.0, 1.0, INF]:
+                        if wkind == 'arr':
+                            if dtype == 'float32':
+                                continue    # float64 weights are refused for a float32 space
+                            warg = arr_of[_ituple(shape)]
+                        out.append(ts(shape, dtype, wkind, warg, p))
     return out
 
 
@@ -397,6 +420,7 @@ def _discr_spaces(thorough):
     def ud(mins, maxs, shape, **o):
         return ('UD', mins, maxs, shape, tuple(sorted(o.items())))
     out = [ud(0, 1, 2), ud(0, 1, 4), ud(0, 2, 2), ud(-0.0, 1, 2), ud(0, 1, 2, nodes_on_bdry=True),
+           ud(0, 2, 2, weighting=0.5),                             # same tspace, other partition
            ud(0, 1, 2, dtype='float32'), ud(0, 1, 2, dtype='complex128'),
            ud(0, 1, 2, exponent=1.0), ud(0, 1, 2, weighting=2.0), ud(0, 1, 2, weighting=0.5),
            ud(0, 1, 2, weighting='A2'), ud(0, 1, 2, weighting='A2c'),
@@ -423,6 +447,19 @@ def _discr_spaces(thorough):
                 ('DS', ('Part', ('IP', 0, 3), ('Grid', (0.5, 1, 2.5))),
                  ('TS', 3, 'float64', None, None, 2.0), None),
                 ('DS', ('UPart', 0, 1, 2, False), ('TS', 2, 'float64', 'inner', 'f', 2.0), None)]
+        # full product domain x dtype x nodes_on_bdry x exponent
+        for mins, maxs, shape in [(0, 1, 2), (0, 2, 2), (0, 1, 4), ((0, 0), (1, 2), (2, 4))]:
+            for dtype in ['float64', 'complex128']:
+                for nob in [False, True]:
+                    for p in [2.0, 1.0]:
+                        o = {}
+                        if dtype != 'float64':
+                            o['dtype'] = dtype
+                        if nob:
+                            o['nodes_on_bdry'] = True
+                        if p != 2.0:
+                            o['exponent'] = p
+                        out.append(ud(mins, maxs, shape, **o))
     return out
 
 
@@ -462,6 +499,12 @@ def _product_spaces(thorough):
                 pw(pw(pw(r1, 2), 2), 2), pw(pw(r2, 2, 'arr', 'A2'), 2),
                 ps([pw(r2, 2), pw(r2, 2, 'const', 2.0)]), pw(c2, 0),
                 ps([r2, r2], 'arr', 'A2'), ps([r2, r3], 'arr', 'A2'), ps([r2, r3], 'const', 2.0)]
+        # full product base x length x weighting x exponent
+        for base in [r2, c2, ud2]:
+            for n in [2, 3]:
+                for wkind, warg in [(None, None), ('const', 2.0), ('arr', 'A2' if n == 2 else 'A3')]:
+                    for p in [2.0, 1.0]:
+                        out.append(pw(base, n, wkind, warg, p))
     return out
 
 
@@ -649,7 +692,7 @@ def index_class(idx):
         else:
             kinds.add(type(i).__name__)
     if isinstance(idx, tuple):
-        return 'tuple[' + '+'.join(sorted(kinds)) + ']'
+        return 'tuple(' + '+'.join(sorted(kinds)) + ')'
     return '+'.join(sorted(kinds))
 
 
